@@ -11,6 +11,7 @@ import NemoVerif.Lemmas.LifetimeT2
 import NemoVerif.Lemmas.LifetimeLinked
 import NemoVerif.Lemmas.LifetimeCount
 import NemoVerif.Lemmas.LifetimeV
+import NemoVerif.Lemmas.LifetimeVEq
 namespace NemoVerif.C06
 open NemoVerif.Lifetime
 
@@ -995,6 +996,87 @@ theorem lifetime_invariant_repaired_partial (ops : List IOp) : RepairedInv (runV
   induction l with
   | nil => intro s hs; exact hs
   | cons op l ih => intro s hs; exact ih _ (repaired_inv_step s op hs)
+
+/-- **on an acyclic hierarchy the repaired recursion IS the as-is recursion** (`Ranked r s`: a rank decreases along
+    `child_flow_uids`): same answer — state or Python exception — up to the content of `in_progress` (`wbE b'`).  Hence
+    every theorem about `abortFlow` / `finishFlow` / `endScope` above speaks about the repaired interpreter on acyclic
+    hierarchies; inside a cycle the as-is functions are the finding `activation-cycle-recursion`. -/
+theorem repaired_abort_eq_as_is_of_acyclic (r : Nat → Nat) (n : Nat) (s : State) (u : Nat) (d : Bool) (hr : Ranked r s) :
+    ∃ b', abortTopV n s u d = wbE b' (abortFlow n s u d) := abortTopV_eq_of_ranked r n s u d hr
+
+theorem repaired_finish_eq_as_is_of_acyclic (r : Nat → Nat) (n : Nat) (s : State) (u : Nat) (d : Bool) (hr : Ranked r s) :
+    ∃ b', finishFlowV n s u d = wbE b' (finishFlow n s u d) := finishFlowV_eq_of_ranked r n s u d hr
+
+theorem repaired_endScope_eq_as_is_of_acyclic (r : Nat → Nat) (n : Nat) (s : State) (u nm : Nat) (hr : Ranked r s) :
+    ∃ b', endScopeV n s u nm = wbE b' (endScope n s u nm) := endScopeV_eq_of_ranked r n s u nm hr
+
+theorem LifetimeInv.wb {s : State} (hi : LifetimeInv s) (b : List Nat) : LifetimeInv (wb b s) :=
+  ⟨⟨hi.flow.of_flows_eq rfl rfl, hi.act.congr rfl (fun _ => rfl)⟩, hi.link.of_flows_eq rfl,
+   hi.cnt.of_hk (HkEq.of_flows_eq rfl) rfl rfl rfl⟩
+
+/-- one step of the REPAIRED machine from a state with an acyclic hierarchy preserves the FULL invariant -/
+theorem lifetime_inv_step_repaired_of_acyclic (s : State) (op : IOp) (hr : ∃ r, Ranked r s) (hi : LifetimeInv s) :
+    LifetimeInv (applyOpV s op) := by
+  obtain ⟨r, hr⟩ := hr
+  have henv : applyOpV s op = applyOp s op → LifetimeInv (applyOpV s op) := fun e => by
+    rw [e]; exact lifetime_inv_step s op hi
+  cases op with
+  | abort n u d =>
+    obtain ⟨b', e⟩ := abortTopV_eq_of_ranked r n s u d hr
+    have h0 := lifetime_inv_step s (.abort n u d) hi
+    simp only [applyOpV, applyOp, e] at h0 ⊢
+    cases h : abortFlow n s u d with
+    | error e' => exact hi
+    | ok s' => rw [h] at h0; exact LifetimeInv.wb h0 b'
+  | finish n u d =>
+    obtain ⟨b', e⟩ := finishFlowV_eq_of_ranked r n s u d hr
+    have h0 := lifetime_inv_step s (.finish n u d) hi
+    simp only [applyOpV, applyOp, e] at h0 ⊢
+    cases h : finishFlow n s u d with
+    | error e' => exact hi
+    | ok s' => rw [h] at h0; exact LifetimeInv.wb h0 b'
+  | endScope n u nm =>
+    obtain ⟨b', e⟩ := endScopeV_eq_of_ranked r n s u nm hr
+    have h0 := lifetime_inv_step s (.endScope n u nm) hi
+    simp only [applyOpV, applyOp, e] at h0 ⊢
+    cases h : endScope n s u nm with
+    | error e' => exact hi
+    | ok s' => rw [h] at h0; exact LifetimeInv.wb h0 b'
+  | startChild c fid p k => exact henv rfl
+  | reactivate fid known act hasInst source pm => exact henv rfl
+  | status u st => exact henv rfl
+  | newAction u a => exact henv rfl
+  | startAction a => exact henv rfl
+  | coWin loser a b => exact henv rfl
+  | event e => exact henv rfl
+  | label u => exact henv rfl
+  | noRestart u => exact henv rfl
+  | frame u heads scopes => exact henv rfl
+
+/-- every state along the run (before each operation) has an acyclic `child_flow_uids` graph -/
+def AcyclicRun : State → List IOp → Prop
+  | _, [] => True
+  | s, op :: rest => (∃ r, Ranked r s) ∧ AcyclicRun (applyOpV s op) rest
+
+/-- **T2 for the repaired interpreter, full invariant, on runs without activation cycles**: the complete
+    `LifetimeInv` (children form, parent-pointer form, counting clause, action clauses) holds in every state of a run
+    of the repaired machine along which the hierarchy stays acyclic.  (With cycles: `lifetime_invariant_repaired_partial`.) -/
+theorem lifetime_invariant_repaired_of_acyclic (ops : List IOp) (h : AcyclicRun initState ops) : LifetimeInv (runV ops) := by
+  unfold runV
+  suffices hs : ∀ (l : List IOp) (s : State), LifetimeInv s → AcyclicRun s l → LifetimeInv (l.foldl applyOpV s) from
+    hs ops _ lifetime_inv_init h
+  intro l
+  induction l with
+  | nil => intro s hs _; exact hs
+  | cons op l ih => intro s hs ha; exact ih _ (lifetime_inv_step_repaired_of_acyclic s op ha.1 hs) ha.2
+
+/-- non-vacuity of `AcyclicRun`: the main flow alone, aborted -/
+example : AcyclicRun initState [.abort 3 0 false] :=
+  ⟨⟨fun _ => 0, fun p pf c hp hc _ => by
+      simp only [initState] at hp
+      split at hp
+      · cases hp; simp [freshFlow] at hc
+      · cases hp⟩, trivial⟩
 
 /-- non-vacuity: a run of the repaired machine through the mutual-activation cycle (main activates a, a activates b,
     b re-activates a; main deactivates a twice): the last `abort` completes and stops both instances -/
